@@ -21,6 +21,8 @@ var c12Items = []string{
 	"ip:10.0.0.0/33", "ip:300.1.1.1", "ip:", "foo:bar", "10.0.0.0/8", "ip:10.0.0.0/8/8", "ip:fe80::/129",
 	// blocks nested in the ones above, with the same base address (narrower and single host)
 	"ip:10.0.0.0/24", "ip:10.0.0.0", "ip:fe80::/64", "ip:192.168.0.0",
+	// an IPv4 block written in the IPv4-mapped IPv6 notation is that IPv4 block
+	"ip:::ffff:10.0.0.0/104", "ip:::ffff:10.1.2.3",
 }
 
 var c12Peers = []string{"10.1.2.3", "10.255.255.255", "11.0.0.1", "192.168.0.1", "::1", "fe80::1", "fe80::1%eth0", "::ffff:10.1.2.3", "2001:db8::1", "0.0.0.0"}
@@ -37,12 +39,16 @@ func c12ParseItem(item string) (netip.Prefix, bool) {
 		if err != nil {
 			return netip.Prefix{}, false
 		}
+		if p.Addr().Is4In6() && p.Bits() >= 96 {
+			p = netip.PrefixFrom(p.Addr().Unmap(), p.Bits()-96)
+		}
 		return p.Masked(), true
 	}
 	a, err := netip.ParseAddr(v)
 	if err != nil || a.Zone() != "" {
 		return netip.Prefix{}, false
 	}
+	a = a.Unmap()
 	return netip.PrefixFrom(a, a.BitLen()), true
 }
 
